@@ -99,6 +99,7 @@ package service
 //@   ensures[not-subscribed] result0 == caseAllMatchedNotSubscribed ==> its.datatypeDoc.Visible && its.datatypeDoc.GetClientInDatatypeDoc(its.CUID, its.isReadOnly) == nil
 //@   ensures[by-id]          result0 == caseUsedDUID ==> its.datatypeDoc != nil && its.datatypeDoc.DUID == its.DUID
 //@   ensures[same-collection] its.datatypeDoc != nil ==> its.datatypeDoc.CollectionNum == its.collectionDoc.Num
+//@   ensures[existing-key-is-seen] result1 == nil && (optCreate(its) || optSubscribe(its)) && mongodb.keyExists(its.collectionDoc.Num, its.gotPushPullPack.Key) ==> result0 == caseMatchKeyNotType || result0 == caseAllMatchedSubscribed || result0 == caseAllMatchedNotSubscribed || result0 == caseAllMatchedNotVisible
 //@   ensures[range]          result0 == caseError || result0 == caseMatchNothing || result0 == caseUsedDUID || result0 == caseMatchKeyNotType || result0 == caseAllMatchedSubscribed || result0 == caseAllMatchedNotSubscribed || result0 == caseAllMatchedNotVisible
 //@   modifies PushPullHandler.datatypeDoc
 
@@ -231,3 +232,17 @@ package service
 //@   ensures[exactly-one-reply] sent(retCh) == old(sent(retCh)) + 1
 //@   ensures[lock-released]     !sel(G.held, its.lock)
 //@   modifies *
+
+// ---------------------------------------------------------------------------------------
+// notification after a committed push (C18)
+// ---------------------------------------------------------------------------------------
+
+// sendNotification announces the pusher, the datatype and the NEW END OF THE LOG.
+//@ func (*PushPullHandler).sendNotification
+//@   mode wrap
+//@   props C18
+//@   requires handlerWF(its) && its.managers.Notifier != nil && its.managers.Notifier.mqttClient != nil && its.datatypeDoc != nil && its.currentCP != nil && ctx != nil
+//@   ensures[one-publish] result == nil ==> G.published == old(G.published) + 1
+//@   ensures[topic]   G.published > old(G.published) ==> G.lastTopic == strcat(its.collectionDoc.Name, "/", its.datatypeDoc.Key)
+//@   ensures[payload] G.published > old(G.published) ==> G.lastPayload.(*model.Notification).CUID == its.CUID && G.lastPayload.(*model.Notification).DUID == its.datatypeDoc.DUID && G.lastPayload.(*model.Notification).Sseq == its.currentCP.Sseq
+//@   modifies G:published, G:lastTopic, G:lastPayload, G:lastMarshaled
